@@ -336,7 +336,12 @@ def r4_clone(ck, F):
     types = [A("rc_struct"), A("ibc_struct"), A("block_cursor"), A("block_struct"), A("reader_struct"), A("meta_struct")]
     for t in types:
         impls = [i for i in F.impls if i.get("self_adt") == t and i.get("trait") == "std::clone::Clone"]
-        ck.ob(R, f"derived-clone/{t}", len(impls) == 1 and impls[0]["derived"], f"{t} implements Clone through a derived impl (field-wise deep clone)", config=F.config, nontrivial=False)
+        okc = len(impls) == 1 and impls[0]["derived"]
+        if not okc and len(impls) == 1:
+            # hand-written, but field by field exactly what the derive generates
+            cb = [b_ for b_ in F.bodies if b_.path.startswith("<" + t) and b_.path.endswith(" as std::clone::Clone>::clone")]
+            okc = len(cb) == 1 and cb[0].is_fieldwise_clone()
+        ck.ob(R, f"derived-clone/{t}", okc, f"{t} implements Clone through a derived impl or a hand-written one that clones every field (field-wise deep clone)", config=F.config, nontrivial=False)
         bad = []
         for f in F.adts[t]["variants"][0]["fields"]:
             fl = f["flags"]
